@@ -299,7 +299,7 @@ def fe_axis_drop(ctx):
 def run(ctx):
     from ..shared import shared_container_rule as _shared_container_rule
 
-    _shared_container_rule(ctx, "R12.8", scope=lambda f, _s=("EasyFEA.FEM._linalg", "EasyFEA.FEM._field"): f.module.name.startswith(_s), min_instances=30)
+    ctx.attempt(_shared_container_rule, ctx, "R12.8", scope=lambda f, _s=("EasyFEA.FEM._linalg", "EasyFEA.FEM._field"): f.module.name.startswith(_s), min_instances=30)
     ctx.level = "other"
     ctx.explanation = (
         "The protocol dispatch of FeArray depends on run-time shapes and is NOT decided. Decided: the closed-form Det/Inv/Trace/Transpose/TensorProd are the tensor operation "
@@ -312,7 +312,7 @@ def run(ctx):
     reducers(ctx)
     broadcast_rule(ctx)
     fe_axis_drop(ctx)
-    protocol_rule(ctx)
+    ctx.attempt(protocol_rule, ctx)
 
 
 # ---------------------------------------------------------------------------
